@@ -1004,5 +1004,31 @@ func Gate(req *pluginpb.CodeGeneratorRequest) (*protoregistry.Files, error) {
 	if err != nil {
 		return nil, err
 	}
+	// rules protoc enforces that protodesc does not
+	var check func(prefix string, ms []*descriptorpb.DescriptorProto) error
+	check = func(prefix string, ms []*descriptorpb.DescriptorProto) error {
+		for _, m := range ms {
+			used := make([]int, len(m.OneofDecl))
+			for _, f := range m.Field {
+				if f.OneofIndex != nil {
+					used[f.GetOneofIndex()]++
+				}
+			}
+			for i, n := range used {
+				if n == 0 {
+					return fmt.Errorf("oneof %s.%s.%s has no fields", prefix, m.GetName(), m.OneofDecl[i].GetName())
+				}
+			}
+			if err := check(prefix+"."+m.GetName(), m.NestedType); err != nil {
+				return err
+			}
+		}
+		return nil
+	}
+	for _, f := range req.ProtoFile {
+		if err := check(f.GetPackage(), f.MessageType); err != nil {
+			return nil, err
+		}
+	}
 	return files, nil
 }
